@@ -235,6 +235,7 @@ type bprover struct {
 	canonLen map[*ssa.Call]ssa.Value // len(map) calls -> representative value
 	memAt    memQuery
 	gcache   map[*ssa.BasicBlock][]bfact
+	live     *liveCFG
 	mem      *memInfo
 	depth    int
 	fmSteps  int
@@ -1782,7 +1783,7 @@ func (p *bprover) factsAt(b *ssa.BasicBlock) []bfact {
 	}
 	p.gcache[b] = nil
 	out := append([]bfact{}, p.entryFacts...)
-	for _, g := range guardsOf(b) {
+	for _, g := range p.liveGuards(b) {
 		p.condFacts(g.cond, g.then, &out)
 	}
 	p.gcache[b] = out
@@ -3405,4 +3406,160 @@ func (p *bprover) proveByLoopInduction(ctxFacts []bfact, goal blin, at *ssa.Basi
 		}
 	}
 	return true
+}
+
+var neverRetCache = map[*ssa.Function]bool{}
+
+// deadEndBlock: the block calls (statically) a function none of whose paths
+// returns; control does not leave the block through its successors.
+func deadEndBlock(b *ssa.BasicBlock) bool {
+	for _, in := range b.Instrs {
+		c, ok := in.(*ssa.Call)
+		if !ok {
+			continue
+		}
+		callee := c.Call.StaticCallee()
+		if callee == nil || len(callee.Blocks) == 0 {
+			continue
+		}
+		nr, ok := neverRetCache[callee]
+		if !ok {
+			nr = neverReturns(callee)
+			neverRetCache[callee] = nr
+		}
+		if nr {
+			return true
+		}
+	}
+	return false
+}
+
+// liveGuards is guardsOf on the control-flow graph without the edges that
+// leave a dead-end block (a block that calls a function none of whose paths
+// returns, such as the parser's p.fatal): such a block is left only by
+// unwinding, so behind `if c { p.fatal(...) }` the negation of c holds, and
+// behind `if a { fatal } else if b { fatal }` both negations hold.  Dominance
+// is recomputed on the pruned graph (removing edges only adds dominators, so
+// the result contains every guard guardsOf reports).
+func (p *bprover) liveGuards(b *ssa.BasicBlock) []guard {
+	if p.live == nil {
+		p.live = computeLiveCFG(p.fn)
+	}
+	lc := p.live
+	if !lc.anyDead || !lc.reach[b] {
+		return guardsOf(b)
+	}
+	var res []guard
+	for _, d := range p.fn.Blocks {
+		if d == b || !lc.dom[b][d] || lc.dead[d] || len(d.Instrs) == 0 {
+			continue
+		}
+		ifi, ok := d.Instrs[len(d.Instrs)-1].(*ssa.If)
+		if !ok {
+			continue
+		}
+		t, f := d.Succs[0], d.Succs[1]
+		if t == f {
+			continue
+		}
+		only := func(s *ssa.BasicBlock) bool {
+			lp := lc.preds[s]
+			return len(lp) == 1 && lp[0] == d
+		}
+		td := only(t) && (t == b || lc.dom[b][t])
+		fd := only(f) && (f == b || lc.dom[b][f])
+		if td && !fd {
+			res = append(res, guard{ifi.Cond, true, d})
+		} else if fd && !td {
+			res = append(res, guard{ifi.Cond, false, d})
+		}
+	}
+	return res
+}
+
+type liveCFG struct {
+	anyDead bool
+	dead    map[*ssa.BasicBlock]bool
+	reach   map[*ssa.BasicBlock]bool
+	preds   map[*ssa.BasicBlock][]*ssa.BasicBlock
+	dom     map[*ssa.BasicBlock]map[*ssa.BasicBlock]bool
+}
+
+func computeLiveCFG(fn *ssa.Function) *liveCFG {
+	lc := &liveCFG{dead: map[*ssa.BasicBlock]bool{}, reach: map[*ssa.BasicBlock]bool{}, preds: map[*ssa.BasicBlock][]*ssa.BasicBlock{}, dom: map[*ssa.BasicBlock]map[*ssa.BasicBlock]bool{}}
+	for _, b := range fn.Blocks {
+		if deadEndBlock(b) {
+			lc.dead[b] = true
+			lc.anyDead = true
+		}
+	}
+	if !lc.anyDead || len(fn.Blocks) == 0 {
+		return lc
+	}
+	succs := func(b *ssa.BasicBlock) []*ssa.BasicBlock {
+		if lc.dead[b] {
+			return nil
+		}
+		return b.Succs
+	}
+	var order []*ssa.BasicBlock
+	var dfs func(b *ssa.BasicBlock)
+	dfs = func(b *ssa.BasicBlock) {
+		if lc.reach[b] {
+			return
+		}
+		lc.reach[b] = true
+		order = append(order, b)
+		for _, s := range succs(b) {
+			dfs(s)
+		}
+	}
+	dfs(fn.Blocks[0])
+	for _, b := range order {
+		for _, s := range succs(b) {
+			lc.preds[s] = append(lc.preds[s], b)
+		}
+	}
+	entry := fn.Blocks[0]
+	for _, b := range order {
+		m := map[*ssa.BasicBlock]bool{}
+		if b == entry {
+			m[b] = true
+		} else {
+			for _, x := range order {
+				m[x] = true
+			}
+		}
+		lc.dom[b] = m
+	}
+	for changed := true; changed; {
+		changed = false
+		for _, b := range order {
+			if b == entry {
+				continue
+			}
+			nw := map[*ssa.BasicBlock]bool{}
+			first := true
+			for _, pr := range lc.preds[b] {
+				if first {
+					for x := range lc.dom[pr] {
+						nw[x] = true
+					}
+					first = false
+				} else {
+					for x := range nw {
+						if !lc.dom[pr][x] {
+							delete(nw, x)
+						}
+					}
+				}
+			}
+			nw[b] = true
+			if len(nw) != len(lc.dom[b]) {
+				lc.dom[b] = nw
+				changed = true
+			}
+		}
+	}
+	return lc
 }
